@@ -68,8 +68,8 @@ def model_check(ctx, cov):
     def bad(v):
         return v, tlc.run_tlc("MCLayout", f"mc/Layout_bad_{v}.cfg", workers=2, timeout=600, coverage=False, name=f"c04.bad.{v}")
 
-    with ThreadPoolExecutor(max_workers=3) as ex:
-        for v, r in ex.map(bad, ("naive-nobits", "no-modulo", "no-cut")):
+    with ThreadPoolExecutor(max_workers=4) as ex:
+        for v, r in ex.map(bad, ("naive-nobits", "no-modulo", "no-cut", "page-modulo-at-location")):
             if r.ok or r.violated != "PlacedWellFormed":
                 raise ToolError(f"broken placement rule '{v}' was NOT rejected by WellFormed: the invariant is vacuous\n"
                                 + r.out[-1500:])
@@ -242,6 +242,59 @@ def gen_scenario(rng, i, tier_quick):
     return scn
 
 
+def gen_fixed_overaligned(rng, j):
+    """The combination the placement model singles out (MCLayout ListsLoc / Layout_bad_page-modulo-at-
+    location.cfg): a part with a fixed address followed, in the same PT_LOAD, by a part whose alignment
+    exceeds the page size.  Enumerated over section class x mechanism x page size; always part of the
+    population."""
+    classes = [("a", False, "r"), ("ax", False, "x"), ("aw", False, "w"), ("aw", True, "n"), ("ax", False, "t")]
+    flags, nobits, tag = classes[j % len(classes)]
+    mech = ("secstart", "script")[(j // len(classes)) % 2]
+    page = 0x1000       # wild supports alignments up to 64 KiB, so only 4 KiB pages leave room above the page
+    arch = "aarch64" if j % 7 == 3 else "x86_64"
+    kind = ("static", "dyn-nonpie")[j % 2]
+    big = (0x10000, 0x2000, 0x8000)[(j // (2 * len(classes))) % 3]
+    loc = dict(name=f".loc0{tag}", flags=flags, nobits=nobits, align=rng.choice([1, 8, 16]), size=rng.choice([3, 13, 100]),
+               sym="symloc", ref=None, obj=0)
+    if tag == "t":      # the follower is .text itself (placed after custom executable sections)
+        fol = dict(name=".text.fol", flags="ax", nobits=False, align=big, size=rng.choice([5, 64]), sym="symfol", ref=None, obj=0)
+    else:
+        fol = dict(name=f".fol1{tag}", flags=flags, nobits=nobits, align=big, size=rng.choice([1, 7, 257]),
+                   sym="symfol", ref=None, obj=0)
+    extra = dict(name=".data.a", flags="aw", nobits=False, align=8, size=24, sym="symd", ref="_start", obj=rng.randrange(2))
+    addr = rng.choice([0x1000000, 0x1000010, 0x7f001230, 0x10002468]) + (8 if mech == "script" else 0)
+    scn = {"id": f"f{j}", "arch": arch, "kind": kind, "tls": "none", "secs": [loc, fol, extra],
+           "opts": ["-z", f"max-page-size={page:#x}", "--no-gc-sections", f"--threads={rng.choice([1, 4])}"],
+           "tags": [f"page{page:#x}", "fixed+overaligned"], "pair": (loc["name"], ".text" if tag == "t" else fol["name"])}
+    if mech == "secstart":
+        scn["opts"].append(f"--section-start={loc['name']}={addr:#x}")
+        scn["tags"].append("secstart")
+    else:
+        foln = ".text.fol" if tag == "t" else fol["name"]
+        body = [f"    {loc['name']} {addr:#x} : {{ KEEP(*({loc['name']})) }}",
+                f"    {foln} : {{ KEEP(*({foln})) }}"]
+        lines = ["SECTIONS", "{", "    . = 0x600000;", "    .text : { *(.text) }", "    .rodata : { *(.rodata .rodata.*) }"]
+        lines += body + ["    .data : { *(.data .data.*) }", "    .bss : { *(.bss .bss.*) }", "}"]
+        scn["script"] = "\n".join(lines) + "\n"
+        scn["tags"].append("script")
+        scn["pair"] = (loc["name"], foln)
+    return scn
+
+
+def pair_effective(scn, path):
+    """Did the dedicated scenario produce what it is for: both sections in one PT_LOAD, the
+    over-aligned one after the fixed one?"""
+    e = Elf(path)
+    a, b = e.section(scn["pair"][0]), e.section(scn["pair"][1])
+    if a is None or b is None or b["addr"] <= a["addr"]:
+        return False
+    page = int(scn["opts"][1].split("=")[1], 16)
+    for p_ in e.segments:
+        if p_["type"] == 1 and p_["vaddr"] <= a["addr"] and b["addr"] + b["size"] <= p_["vaddr"] + p_["memsz"]:
+            return b["addralign"] > page
+    return False
+
+
 def gen_script(rng, secs, customs, absolute=True, far_ok=True):
     """A small SECTIONS script in the subset wild supports."""
     lines = ["SECTIONS", "{"]
@@ -317,7 +370,7 @@ def emit(scn, d, libs):
 
 
 def scenario_class(scn):
-    tags = [t for t in scn["tags"] if t in ("secstart", "secstart-collides-image", "script", "script-rel")]
+    tags = [t for t in scn["tags"] if t in ("secstart", "secstart-collides-image", "script", "script-rel", "fixed+overaligned")]
     return f"{scn['kind']}:{'+'.join(tags) if tags else 'plain'}"
 
 
@@ -360,6 +413,7 @@ def failure_key(scn, f, o, failing=()):
 
 def link_population(ctx, d, rng, n, libs):
     scns = [gen_scenario(rng, i, ctx.quick) for i in range(n)]
+    scns += [gen_fixed_overaligned(rng, j) for j in range(20 if ctx.quick else 80)]
 
     def job(s):
         sub = d / s["id"]
@@ -420,6 +474,11 @@ def run(ctx):
             obs.append(o)
             by_id[scn["id"]] = scn
             observed.append(scn)
+        ded = [s_ for s_ in observed if "fixed+overaligned" in s_["tags"]]
+        eff = sum(1 for s_ in ded if pair_effective(s_, s_["dir"] / "out"))
+        cov["fixed_then_overaligned_in_one_load"] = {"linked": len(ded), "effective": eff}
+        if eff < 8:
+            raise ToolError(f"dedicated fixed-address + over-aligned-follower links are not effective: {eff} of {len(ded)}")
         if len(obs) < 0.6 * n_links:
             raise ToolError(f"generator problem: only {len(obs)} of {n_links} links accepted; declined: "
                             + json.dumps({k: len(v) for k, v in declined.items()}))
